@@ -171,16 +171,37 @@ def gen_overrides(rng, names, n):
             used_ids.add(oid)
         has_default = rng.random() < 0.5
         default = ""
+        dflt = None
         if has_default:
             same = [p for p, t in prev if t == ty and ty != "bool"]
             if same and rng.random() < 0.4:
-                default = " = %s * 2%s" % (rng.choice(same), {"i32": "", "u32": "u", "f32": ".0"}[ty])
+                ref = rng.choice(same)
+                default = " = %s * 2%s" % (ref, {"i32": "", "u32": "u", "f32": ".0"}[ty])
+                dflt = {"mul2": ref}
             else:
                 default = " = " + {"bool": "true", "i32": "-3", "u32": "4u", "f32": "0.5"}[ty]
+                dflt = {"lit": {"bool": True, "i32": -3, "u32": 4, "f32": 0.5}[ty]}
         lines.append("%soverride %s: %s%s;" % ("@id(%d) " % oid if has_id else "", name, ty, default))
-        truth.append({"name": name, "ty": ty, "id": oid, "default": has_default})
+        truth.append({"name": name, "ty": ty, "id": oid, "default": has_default, "dflt": dflt})
         prev.append((name, ty))
     return lines, truth
+
+
+def override_assignments(rng, truth, n=3):
+    """n assignments of values to the OverrideConstants fields (None = leave an optional field unset); the values stay
+    small enough that a `* 2` default cannot overflow"""
+    pools = {"bool": [True, False], "i32": [0, 1, -1, -7, 12345, -1000000, 1073741823, -1073741824],
+             "u32": [0, 1, 9, 65536, 2147483647, 16777217], "f32": [0.0, 1.0, -2.5, 0.1, 3.4e37, -1.0e-40, 16777216.0]}
+    out = []
+    for k in range(n):
+        a = {}
+        for t in truth:
+            if t["default"] and (k == 1 or (k > 1 and rng.random() < 0.5)):
+                a[t["name"]] = None
+            else:
+                a[t["name"]] = rng.choice(pools[t["ty"]])
+        out.append(a)
+    return out
 
 
 def coq_overrides_truth(truth):
